@@ -1348,7 +1348,10 @@ func prepare(scratch string) (rewriteStats, error) {
 // buildWorker compiles the worker in the scratch tree.
 func buildWorker(scratch string, race bool) (string, error) {
 	out := filepath.Join(scratch, "worker")
-	args := []string{"build"}
+	// -trimpath: the scratch directory's name does not enter the compiler's
+	// inputs, so that checks of the same tree share the Go build cache instead
+	// of adding to it every time (86 GB had accumulated during development).
+	args := []string{"build", "-trimpath"}
 	if race {
 		args = append(args, "-race")
 		out += "-race"
